@@ -88,6 +88,9 @@ func init() {
 		{ctlGo, "handleSvcEndpointsAdd", "Controller.handleSvcEndpointsAdd"},
 		{ctlGo, "handleSvcEndpointsRemove", "Controller.handleSvcEndpointsRemove"},
 		{ctlGo, "ctlHandleSvcConfigUpdate", "Controller.handleSvcConfigUpdate"},
+		{"proc/tcp/proc.go", "tcpOnSvcConfigUpdate", "tcpProc.OnSvcConfigUpdate"},
+		{"proc/internal/hc/monitor.go", "resetHealthCheck", "Monitor.ResetHealthCheck"},
+		{"proc/internal/hc/monitor.go", "newMonitor", "NewMonitor"},
 	})
 	const reqGo = "proc/redis/request.go"
 	const hdlGo = "proc/redis/handler.go"
